@@ -92,6 +92,8 @@ class _IntDT:
         self.real = getattr(_np, name)
 
     def __call__(self, x=0):
+        if getattr(x, '_symbolic_int', False):
+            return x
         if isinstance(x, Sym):
             x = _to_py(x)
         return _np.int64(x)
